@@ -135,24 +135,29 @@ def mkCompletion (sep : Str) (isEnv : Bool) (dirOrig : Str) (name : Str) (isDir 
   if isDir then { completion := if sep ≠ [] then n3.dropLast else n3, display := display, dirSuffix := true }
   else { completion := n3, display := display, dirSuffix := false }
 
+/-- the last token of `parse_line(word)`, `("", "")` when there is none (path.rs:86-92) -/
+def lastToken (word : Str) : Tok :=
+  match (parseLine word).getLast? with
+  | some t => t
+  | none => ([], [])
+
 /-- `complete_path(word, for_dir)` (path.rs:82-161).
 `fs dir` = the entries `read_dir(dir)` yields with their `is_dir()`, `none` when it fails. -/
 def completePath (fs : Str → Option (List (Str × Bool))) (envVar : Str → Option Str)
     (word : Str) (forDir : Bool) : Outcome (List Completion) :=
   let isEnv := isEnvPrefix word
-  let (sep, path) := match (parseLine word).getLast? with
-    | some t => t
-    | none => ([], [])
+  let sep := (lastToken word).1
+  let path := (lastToken word).2
   let dirOrig := (splitPathname path).1
   if needsExpandHome path then .err "unmodelled:home" else
   let ext := expandEnvString envVar path
-  let (dirLookup0, fileName) := splitPathname ext
-  let dirLookup := if dirLookup0 = [] then ['.'] else dirLookup0
+  let dirLookup := if (splitPathname ext).1 = [] then ['.'] else (splitPathname ext).1
+  let fileName := (splitPathname ext).2
   match fs dirLookup with
   | none => .ok []
   | some entries =>
-    let kept := entries.filter (fun (n, d) => (!forDir || d) && startsWith n fileName)
-    .ok ((kept.map (fun (n, d) => mkCompletion sep isEnv dirOrig n d)).mergeSort
+    let kept := entries.filter (fun e => (!forDir || e.2) && startsWith e.1 fileName)
+    .ok ((kept.map (fun e => mkCompletion sep isEnv dirOrig e.1 e.2)).mergeSort
       (fun a b => strLe a.completion b.completion))
 
 /-- `lineread` substitutes the completion for the word and appends the suffix character; what the line
